@@ -82,6 +82,7 @@ def _connect_one(ctx: Ctx, c: Collector) -> None:
 
     raises = [e for e in s.of_kind("raise")]
     effects: List[Tuple[str, Event]] = []
+    creates: List[Tuple[str, Event]] = []
     idem: Dict[int, Tuple[Term, ...]] = {}
     for e in s.events:
         if e.kind == "store":
@@ -93,15 +94,23 @@ def _connect_one(ctx: Ctx, c: Collector) -> None:
                 if e.term[1][0] == "idx":
                     idem[e.idx] = tuple(g for g in e.guards if T.guard_term(g) == ("cmp", "notin", e.term[1][2], e.term[1][1]))
         elif e.kind == "call" and e.term[1][0] == "attr" and e.term[1][2] in ("append", "add", "add_edge", "update"):
-            tb = _effect_table(unalias(e.term[1][1], s, fi))
+            recv = unalias(e.term[1][1], s, fi)
+            tb = _effect_table(recv)
             if tb:
                 effects.append((tb, e))
+                # `if x not in xs: xs.append(x)` keeps one copy of an entry: the test is not a condition of the entry
+                if e.term[1][2] in ("append", "add") and len(e.term[2]) == 1:
+                    idem[e.idx] = tuple(g for g in e.guards if T.guard_term(g)[0] == "cmp" and T.guard_term(g)[1] == "notin" and g[0]
+                                        and T.guard_term(g)[2] == e.term[2][0] and unalias(T.guard_term(g)[3], s, fi) == recv)
         elif e.kind == "call" and e.term[1][0] == "attr" and e.term[1][2] == "setdefault" and len(e.term[2]) == 2:
             # a setdefault whose result is not used further is an effect of its own
             tb = _effect_table(unalias(e.term[1][1], s, fi))
             used = any(T.contains(x.term, e.term) and x.idx != e.idx for x in s.events)
             if tb and not used:
                 effects.append((tb, e))
+            elif tb:
+                # the key is created where the call stands, whatever is done with the result later
+                creates.append((tb, e))
     if not raises:
         c.bad("reject", CONNECT_ONE, "rejection-table", "connect_one never raises: invalid attribute pairs are accepted", loc)
         return
@@ -110,6 +119,7 @@ def _connect_one(ctx: Ctx, c: Collector) -> None:
         c.check(ok_exc, "exc", CONNECT_ONE, "rejection is a ScenarioError", f"raises {T.show(r.term)[:60]}", ctx.loc(fi, r))
 
     items = [(f"raise{r.idx}", r.guards) for r in raises] + [(f"eff:{tb}:{e.idx}", tuple(g for g in e.guards if g not in idem.get(e.idx, ()))) for tb, e in effects]
+    items += [(f"mk:{tb}:{e.idx}", e.guards) for tb, e in creates]
     by_idx = {e.idx: (tb, e) for tb, e in effects}
 
     def truthy(t: Term) -> Optional[bool]:
@@ -141,8 +151,9 @@ def _connect_one(ctx: Ctx, c: Collector) -> None:
                 why.append("into a %s input" % ("non-trigger" if a[MEAS] else "trigger"))
                 why.append("without initial data" if a[SENT] else "with initial data")
                 pr_rej["spurious"].append("a valid connection (" + ", ".join(why) + ") is rejected")
-            if r and ef:
-                pr_eff.append("data-flow is registered (" + ", ".join(sorted({x.split(':')[1] for x in ef})) + ") for an attribute pair that is rejected")
+            mk = [x for x in fired if x.startswith("mk:")]
+            if r and (ef or mk):
+                pr_eff.append("data-flow is registered (" + ", ".join(sorted({x.split(':')[1] for x in ef + mk})) + ") for an attribute pair that is rejected")
             if not should and not r:
                 got: Dict[str, int] = {}
                 for x in ef:
